@@ -60,13 +60,14 @@ def mux_runs():
 
 MUX_BOUNDS = {
     "quick": {"writes per run": "K=4 (fMP4, MPEG-TS, fMP4 video+audio), K=3 (Low-Latency)", "first DTS": "[-10 s, 2^33] ticks", "DTS delta": "[0, 2^21] ticks video, [0, 2^20] audio",
-              "SegmentMinDuration": "symbolic in [1 ms, 4 s]", "access unit kinds": "IDR / non-IDR / IDR with changed PPS", "SegmentCount": "3 (7 in Low-Latency)", "storage": "RAM"},
+              "SegmentMinDuration": "symbolic in [1 ms, 4 s]", "access unit kinds": "IDR / non-IDR / changed PPS on IDR or non-IDR / changed SPS (H264, H265); key / non-key / key with changed frame size or sequence header (VP9, AV1)", "SegmentCount": "3 (7 in Low-Latency)",
+              "storage": "RAM; Directory storage (in-harness file system) in the *.disk runs"},
     "thorough": {"writes per run": "K=6 (fMP4, MPEG-TS), K=4 (Low-Latency), K=5 (video+audio)", "first DTS": "[-10 s, 2^33] ticks", "DTS delta": "[0, 2^21] / [0, 2^20] ticks",
                  "SegmentMinDuration": "symbolic in [1 ms, 4 s]", "access unit kinds": "IDR / non-IDR / IDR with changed PPS", "SegmentCount": "3 (7 in Low-Latency)", "storage": "RAM"},
 }
 
 MUX_OUTSIDE = ["byte-level MP4 / MPEG-TS encoding (mediacommon)", "histories longer than K writes (covered by the step harnesses where registered)",
-               "H265 / VP9 / AV1 / Opus write paths", "pts != dts", "disk storage in the bounded runs"]
+               "H265 / VP9 / AV1 outside the single-video fMP4 runs registered for C01/C02 (fixed valid parameter-set vectors, two alternatives each)", "pts != dts"]
 
 for pid, tech in [("C01", "ghost list of accepted units vs decoded fragments"), ("C02", "specification cut rule vs observed rotations; init contents"),
                   ("C03", "durations / targets / date-times of every served playlist vs ghost segments"),
@@ -368,7 +369,11 @@ _STD = ["end", "cut", "observe", "decode-segment"]
 OPUS = _mx("run.mux.fmp4.opus", 2, 4, 3, 4, _STD, MAXAUS=2)
 LLVA = _mx("run.mux.ll.video+audio", 3, 1, 4, 5, _STD, VKINDS=2, FREEZEPART=1)
 LLDISK = _mx("run.mux.ll.disk", 3, 0, 4, 5, _STD, VKINDS=2, DISK=1, CLOSE_AT_END=1, FREEZEPART=1)
-for pid, extra in [("C01", [OPUS, LLVA, LLDISK]), ("C02", [OPUS]), ("C03", [OPUS, LLVA]), ("C04", [LLVA]), ("C05", [LLDISK]), ("C18", [LLDISK])]:
+# the other video codecs' write paths (fMP4): random access detection, skip-until-first-random-access, parameter changes
+H265 = _mx("run.mux.fmp4.h265", 2, 0, 4, 5, _STD + ["init-after-change"], VCODEC=1, VKINDS=5)
+VP9 = _mx("run.mux.fmp4.vp9", 2, 0, 4, 5, _STD + ["init-after-change"], VCODEC=2, VKINDS=3)
+AV1 = _mx("run.mux.fmp4.av1", 2, 0, 4, 5, _STD + ["init-after-change"], VCODEC=3, VKINDS=3)
+for pid, extra in [("C01", [OPUS, LLVA, LLDISK, H265, VP9, AV1]), ("C02", [OPUS, H265, VP9, AV1]), ("C03", [OPUS, LLVA]), ("C04", [LLVA]), ("C05", [LLDISK]), ("C18", [LLDISK])]:
     CHECKS[pid]["runs"] = CHECKS[pid]["runs"] + extra
 CHECKS["C19"]["runs"] = CHECKS["C19"]["runs"] + [
     {"name": "run.ll.parts.audio", "files": C19F, "fn": "VerifH_C19_run", "workers": 16, "params": {"AUDIO": 1}, "params_quick": {"K": 10}, "params_thorough": {"K": 14},
